@@ -50,9 +50,9 @@ def _build(a, nm, with_tables, sqlr=None, dbmlr=None):
         t2 = Table('a' + nm[:0] + 'b', schema='s', columns=[Column('id', 'int'), Column('y', 'int', note=nm)])
         t3 = Table('c', columns=[Column('id', 'int'), Column('z', 'int')])
         t1.add_index(Index([t1.columns[2]], name='i_' + nm))
-        for t in (t1, t2, t3):
+        for t in (t3, t1, t2):      # c first: the SQL order (tables holding inline FKs first) differs from db.tables
             db.add(t)
-        tabs = [t1, t2, t3]
+        tabs = [t3, t1, t2]
         db.add(Reference('>', [t1.columns[2]], [t3.columns[0]], inline=True))      # a holds an inline FK: SQL order differs from db.tables
         db.add(Reference('<', [t1.columns[0]], [t2.columns[1]], inline=True))
         db.add(Reference('>', [t3.columns[1]], [t2.columns[0]], name='r_' + nm))
